@@ -65,6 +65,11 @@ void Broker::later(const ConnPtr& c, std::function<void()> fn) {
         auto* b = state(c);
         if (!b || b->closed) return;
         if (silent_now()) return;
+        if (cfg.drop_ack_pct && w_.now() < cfg.drop_ack_until && (int)w_.rng.below(100) < cfg.drop_ack_pct) {
+            w_.log(Ev::note, c->id, -1, 0, "broker: acknowledgement withheld (the connection stays up)");
+            ++acks_withheld;
+            return;
+        }
         fn();
     });
 }
